@@ -14,7 +14,7 @@ RULE = ('NOT exhaustive as a whole. Enumerated completely at the tier bound: eve
         'thorough N=9 / 7) of each type (range with non-zero origin and steps 1, 2, -1; str list; tuple; mixed hashables incl. True/1.0-style equal '
         'labels, 2.5, a pair, None; NumPy int / str arrays; NumPy datetime64[D] and [ns] arrays (n <= 3); a float array with a NaN label; pandas Index of '
         'ints / strs; PeriodIndex Y and Q (thorough: also M); DatetimeIndex D and MS) x every label of the span and every absent label of its list (same '
-        'type, other type, just outside a range, a pair) for get / scalar set / locate, and x every (start, stop) pair over the labels, two absent labels '
+        'type, other type, just outside a range, a pair, the text of a present int label: 2001 as \'2001\' / \' 2001\' / \'+2001\' / \'2001.0\', and the int of a numeric-text label) for get / scalar set / locate, and x every (start, stop) pair over the labels, two absent labels '
         'and open ends with the steps {None,2,3,n+1} for get and {None,2,n+1} for scalar set on VectorContainer at quick (thorough: {None,1,2,3,n,n+1} '
         'for both; BaseModel at quick: {None,2,3,n+1} / {None,2}). SAMPLED with the run\'s rng: sequence operands (full-length, one-element, wrong length), '
         'zero and negative steps, pair / partial-string slice bounds (all of them for n <= 4, 14 + 2n bound pairs above). Fixed families: spans with '
@@ -914,6 +914,10 @@ def span_specs(nmax, monthly=False):
         specs.append({'type': 'nparr_dt64', 'unit': 'ns', 'start': TS_D0, 'step': 86400 * 10 ** 9, 'n': n})
         specs.append({'type': 'nparr_dt64', 'unit': 'D', 'start': 10955, 'step': 1, 'n': n})
     specs.append({'type': 'nparr', 'labels': [['f', 1.0], ['f', 'nan'], ['f', 3.0]]})
+    # spans of numeric-text strings (an int key is not the string label)
+    specs.append({'type': 'list', 'labels': [['s', '2000'], ['s', '2001'], ['s', '2002']]})
+    specs.append({'type': 'nparr', 'labels': [['s', '2000'], ['s', '2001'], ['s', '2002']]})
+    specs.append({'type': 'pdindex', 'labels': [['s', '2000'], ['s', '2001'], ['s', '2002']]})
     # falsy labels (0, '', 0.0) first / in the middle / last: a label is never an omitted bound
     specs.append({'type': 'list', 'labels': [['s', ''], ['i', 0], ['s', 'a']]})
     specs.append({'type': 'range', 'start': -1, 'step': 1, 'n': 3})
@@ -948,6 +952,26 @@ def absent_labels(spec):
     return [j for j in out if lc.canon(j) not in [lc.canon(x) for x in labs]]
 
 
+def text_aliases(spec):
+    """Absent labels of ANOTHER type whose text coincides with a present label: the decimal text of an int label ('2001', ' 2001', '+2001',
+    '2001.0') on an integer span, the int of a label on a span of numeric-text strings.  By label equality they are not in the span."""
+    labs = lc.span_labels(spec)
+    if spec['type'] not in ('range', 'list', 'tuple', 'nparr', 'pdindex') or not labs:
+        return []
+    present = [lc.canon(x) for x in labs]
+    out = []
+    if all(j[0] == 'i' for j in labs):
+        v = labs[len(labs) // 2][1]
+        out = [['s', str(v)], ['s', ' %d' % v], ['s', '+%d' % v] if v >= 0 else ['s', '%d ' % v], ['s', '%d.0' % v], ['s', str(labs[0][1])]]
+    elif all(j[0] == 's' and j[1].lstrip('-').isdigit() for j in labs):
+        out = [['i', int(labs[len(labs) // 2][1])], ['i', int(labs[-1][1])], ['f', float(labs[0][1])]]
+    res = []
+    for j in out:
+        if lc.canon(j) not in present and j not in res:
+            res.append(j)
+    return res
+
+
 def partial_strings(spec):
     if spec['type'] == 'period' and spec['freq'] == 'Q':
         return [['s', '1999'], ['s', '2000'], ['s', '2000Q1'], ['s', '2001']]
@@ -968,13 +992,14 @@ def cases_for_span(spec, cls, rng, level):
     labs = lc.span_labels(spec)
     absent = absent_labels(spec)
     pair = [['p', 5, 6], ['p', 2, 5]] if spec['type'] in ('nparr', 'list', 'pdindex', 'period', 'datetime') and n <= 3 else []          # (a tuple makes Period / Datetime indexes raise InvalidIndexError: must surface as KeyError)
-    universe = [j for j in labs if j != ['none']] + absent[:2]
+    texts = text_aliases(spec)
+    universe = [j for j in labs if j != ['none']] + absent[:2] + texts[:1]
     out = []
 
     def add(op):
         out.append({'span': spec, 'cls': cls, 'op': op})
     # scalar labels: every label, every absent label, get / set / locate
-    for j in labs + absent + pair + partial_strings(spec):
+    for j in labs + absent + pair + partial_strings(spec) + texts:
         add({'kind': 'get', 'key': {'label': j}})
         add({'kind': 'set', 'key': {'label': j}, 'w': {'scalar': 99}})
         add({'kind': 'locate', 'label': j})
